@@ -190,6 +190,22 @@ def check(prop_id, clean=False, coqchk=False):
         res["coqchk"] = txt[-3000:]
         if rc != 0:
             res["problems"].append("coqchk failed: " + txt[-500:])
+        else:
+            # coqchk -o lists the axioms of EVERY library in the cone: allowed are the kernel's primitive integers and the
+            # standard library's own specification axioms for them (Coq.Numbers.Cyclic.Int63.Uint63.*_spec, of_to_Z, eqb_*),
+            # which enter through Uint63/Bignums loaded by Prim/; nothing else, and none declared by this development
+            m = re.search(r"\* Axioms:(.*?)\* Constants/Inductives relying on type-in-type:(.*?)\* Constants/Inductives relying on unsafe \(co\)fixpoints:(.*?)\* Inductives whose positivity is assumed:(.*)", txt, re.S)
+            if not m:
+                res["problems"].append("coqchk output not understood")
+            else:
+                axioms = [a for a in m.group(1).split() if a != "<none>"]
+                bad = [a for a in axioms if not (a.startswith("Coq.Numbers.Cyclic.Int63.PrimInt63.") or a.startswith("Coq.Numbers.Cyclic.Int63.Uint63."))]
+                res["coqchk_axioms"] = axioms
+                if bad:
+                    res["problems"].append("coqchk reports unexpected axioms: " + ", ".join(bad[:10]))
+                for k, what in ((2, "type-in-type"), (3, "unsafe fixpoints"), (4, "assumed positivity")):
+                    if m.group(k).strip().split("\n")[0].strip() != "<none>":
+                        res["problems"].append("coqchk reports constants relying on %s" % what)
     return res
 
 
